@@ -280,3 +280,12 @@ def run_case(case):
     nontrivial = bool(case.get('samples')) or part != 'transparent'
     return dict(viol=list(first.values()), key=repr(sorted((k, str(v_)) for k, v_ in case.items())),
                 nontrivial=nontrivial, stats=stats)
+
+
+def finalize(cases, results, tier):
+    return dict(tier_bound=('quick: (a) all subsets of <= 2 of the 9 out-of-span samples; (b) every 4th scenario of the 96 '
+                            '(index + seed) plus two fixed ones (shared-stamp mix, scale/misalignment with three sensors); '
+                            '(c) all 14 sequences + 2 poked' if tier == 'quick' else
+                            'thorough: (a) all 512 subsets; (b) all 96 scenarios; (c) all 14 sequences + 2 poked'),
+                scenarios_b=sum(1 for c in cases if c['part'] == 'equivalence'),
+                schedules_a=sum(1 for c in cases if c['part'] == 'transparent'))
